@@ -79,6 +79,12 @@ def wrapper_step(fault, spec):
             yield from package
             fault.fire()
         return injected
+    if kind == 'after-pkg':
+        def injected(package):
+            yield package.pkg
+            fault.fire()             # before the first resource is handed on
+            yield from package
+        return injected
     if kind == 'rowfn':
         cnt = itertools.count()
 
@@ -165,6 +171,12 @@ def _b_gen(step, env):
     return gen()
 
 
+@core.builder('c04_stream_fileobj')
+def _b_stream_fileobj(step, env):
+    import io
+    return core.dataflows.stream(io.StringIO())
+
+
 @core.builder('c04_iterobj')
 def _b_iterobj(step, env):
     """An iterable *object* whose __iter__ does the work up front (open a connection, run a query) and may fail there."""
@@ -241,6 +253,8 @@ PIPELINES = {
     'delete_later': [SRC, S('add_field', 'z', 'integer', 7), S('dump_to_path', {'$path': 'dump'}), S('delete_resource', 'r1'),
                      S('add_field', 'y', 'integer', 8)],
     'delete_later2': [SRC, S('add_field', 'z', 'integer', 7), S('delete_resource', 'r2'), S('dump_to_path', {'$path': 'dump'})],
+    'stream_fileobj': [SRC, S('add_field', 'z', 'integer', 7), {'op': 'c04_stream_fileobj'}, S('join', 'r1', ['a'], 'r2', ['a'], {'b': {'aggregate': 'last'}}),
+                       S('add_field', 'y', 'integer', 8)],
     'sources_sub': [SRC, {'op': 'c04_cb', 'which': 'sources_sub', 'id': 'sources_sub'}, S('dump_to_path', {'$path': 'dump'})],
     'sources_sub_row': [SRC, {'op': 'c04_cb', 'which': 'sources_sub_row', 'id': 'sources_sub_row'}, S('dump_to_path', {'$path': 'dump'})],
     'iterobj': [{'op': 'c04_iterobj', 'n': 5}, S('add_field', 'z', 'integer', 7), S('dump_to_path', {'$path': 'dump'})],
@@ -377,7 +391,7 @@ def sig_of(case, oracle):
     inj = case['inject']
     if inj[0] == 'wrap':
         spec = inj[2]
-        phase = {'pkg': 'package-phase', 'row': 'row', 'end': 'resource-end', 'iter-end': 'iterator-end', 'rowfn': 'row-fn'}[spec[0]]
+        phase = {'pkg': 'package-phase', 'row': 'row', 'end': 'resource-end', 'iter-end': 'iterator-end', 'rowfn': 'row-fn', 'after-pkg': 'after-package'}[spec[0]]
         where = 'wrapper'
     else:
         phase, where = 'callback', inj[1]
@@ -397,7 +411,7 @@ def cases_for(pipe, classes):
     steps = PIPELINES[pipe]
     n = len(steps)
     shapes = [3, 2]      # rows per resource of P0 (upper bound: fault-not-reached is reported, not hidden)
-    specs = [('pkg',), ('iter-end',), ('rowfn', 0), ('rowfn', 2)]
+    specs = [('pkg',), ('iter-end',), ('after-pkg',), ('rowfn', 0), ('rowfn', 2)]
     for r, rows in enumerate(shapes):
         for k in sorted({0, rows // 2, rows - 1}):
             specs.append(('row', r, k))
